@@ -213,7 +213,7 @@ class Octree(GridObject):
                 assert (
                     value.dtype == dtype
                 ), f"Input of type {np.ndarray} must be of {dtype}"
-                self._octree_cells = value
+                self._octree_cells = value.copy()
             else:
                 value = np.vstack(value)
                 assert (
